@@ -48,16 +48,17 @@ package verifspec
 //@ property C10
 //@ property C05
 //@   requires len(pkgs) > 0 && w != nil && forall(k, 0, len(pkgs), pkgs[k] != nil)
+//@   requires forall(k, 0, len(pkgs), forall(j, 0, len(pkgs[k].Declarations), pkgs[k].Declarations[j] != nil))
 //@   ghost glsAdded = 0
 //@   ghost nw = 0
 //@   ghost log = 0
-//@   loop 1 invariant glsAdded == $i1
+//@   loop 1 invariant 0 <= $i1 && $i1 <= len(pkgs) && glsAdded == $i1
 //@   loop 2 invariant glsAdded == len(pkgs)
 //@   loop 3 invariant glsAdded == len(pkgs)
 //@   oncall IsImplementation: assert glsAdded == len(pkgs)
 //@   oncall Include: assert glsAdded == len(pkgs)
 //@   loop 4 invariant log == chain(chain(0, str("\"use strict\";\n(function() {\n\n")), str("var $goVersion = %q;\n")) && nw == 0
-//@   loop 5 invariant log == chain(chain(chain(0, str("\"use strict\";\n(function() {\n\n")), str("var $goVersion = %q;\n")), str("\n")) && nw == $i5
+//@   loop 5 invariant log == chain(chain(chain(0, str("\"use strict\";\n(function() {\n\n")), str("var $goVersion = %q;\n")), str("\n")) && nw == $i5 && 0 <= $i5 && $i5 <= len(pkgs)
 //@   oncall WritePkgCode: assert a0 == pkgs[nw]
 //@   ensures result == nil ==> nw == len(pkgs)
 //@   ensures result == nil ==> log == chain(chain(chain(chain(chain(chain(chain(chain(chain(chain(chain(0, str("\"use strict\";\n(function() {\n\n")), str("var $goVersion = %q;\n")), str("\n")), str("$callForAllPackages(\"$finishSetup\");\n")), str("$synthesizeMethods();\n")), str("$callForAllPackages(\"$initLinknames\");\n")), str("var $mainPkg = $packages[\"%s\"];\n")), str("$packages[\"runtime\"].$init();\n")), str("$go($mainPkg.$init, []);\n")), str("$flushConsole();\n")), str("\n}).call(this);\n"))
